@@ -143,13 +143,15 @@ def body_open(ts, i):
         elif t in ')]': d -= 1
         elif t == ';' and d == 0: return None
         elif t == '{' and d == 0:
-            j = k - 1; dd = 0; prev_kw = None
+            j = k - 1; dd = 0; prev_kw = None; passed_block = False
             while j > i:
                 if ts[j] in ')]}': dd += 1
-                elif ts[j] in '([{': dd -= 1
+                elif ts[j] in '([{':
+                    dd -= 1
+                    if dd == 0 and ts[j] == '{': passed_block = True
                 if dd == 0 and (ts[j] in ('if', 'match', 'else', ',') or ts[j] in CLAUSE_KW): prev_kw = ts[j]; break
                 j -= 1
-            if prev_kw in ('if', 'match') or ts[k - 1] == 'else':
+            if (prev_kw in ('if', 'match') and not passed_block) or ts[k - 1] == 'else':
                 k = match_close(ts, k) + 1; continue
             return k
         k += 1
@@ -290,7 +292,7 @@ def strip_suffix(expr, suf):
 def T(s, line=None):
     return [Tok(x, line) for x in s.split()]
 
-def rewrite_loops(toks, user_iters=(), force_r1b=()):
+def rewrite_loops(toks, user_iters=(), force_r1b=(), by_ref_loops=()):
     """R1 family, canonical output; loop ordinal k counts every `for` of the function in source order."""
     n_loop = [0]
     def rw(ts):
@@ -344,17 +346,21 @@ def rewrite_loops(toks, user_iters=(), force_r1b=()):
                 S, I = 'vx_s' + q, 'vx_i' + q
                 enum = strip_suffix(expr, ['.', 'enumerate', '(', ')'])
                 if enum is not None: expr = enum
+                copied = False
                 for suf in (['.', 'iter', '(', ')', '.', 'copied', '(', ')'], ['.', 'iter', '(', ')']):
                     st = strip_suffix(expr, suf)
-                    if st is not None: expr = st; break
+                    if st is not None: expr = st; copied = 'copied' in suf; break
                 if expr[0] == '&': expr = expr[1:]
                 if enum is not None:
                     assert pat[0] == '(' and pat[-1] == ')'
-                    iv = pat[1]; xv = [t for t in pat[3:-1] if t != '&']
-                    bind = T('let', L) + [iv] + T('= %s ; let' % I, L) + xv + T('= %s [ %s ] ;' % (S, I), L)
+                    iv = pat[1]; xpat = pat[3:-1]
                 else:
-                    xv = [t for t in pat if t != '&']
-                    bind = T('let', L) + xv + T('= %s [ %s ] ;' % (S, I), L)
+                    iv = None; xpat = pat
+                # the items of a slice iterator are references: `&x` / `.copied()` bind the value, a plain pattern binds `&S[i]`
+                by_ref = int(q) in by_ref_loops   # type-dependent (iterating a slice reference with a plain pattern): declared per loop in the unit file
+                xv = [t for t in xpat if t != '&']
+                bind = (T('let', L) + [iv] + T('= %s ;' % I, L)) if iv is not None else []
+                bind += T('let', L) + xv + T('=', L) + (T('&', L) if by_ref else []) + T('%s [ %s ] ;' % (S, I), L)
                 inc = T('%s += 1 ;' % I, L)
                 has_continue = 'continue' in body
                 is_place = len(expr) % 2 == 1 and all((t == '.' if z % 2 else (t.isidentifier() or t.isdigit())) for z, t in enumerate(expr))
@@ -455,7 +461,7 @@ def real_pipeline(ts, unit, path):
     post = [r for r in rules if r.get('stage') != 'pre']
     ts = apply_expr_rewrites(ts, pre)
     ui = [[str(x) for x in tokens(u)] for u in unit.get('user_iters', [])]
-    ts = rewrite_loops(ts, ui, tuple(unit.get('force_r1b', {}).get(path, [])))
+    ts = rewrite_loops(ts, ui, tuple(unit.get('force_r1b', {}).get(path, [])), tuple(unit.get('r1_by_ref', {}).get(path, [])))
     ts = apply_expr_rewrites(ts, post)
     return ts
 
@@ -467,13 +473,15 @@ def clause_end(ts, i):
         if t in '([': d += 1
         elif t in ')]': d -= 1
         elif t == '{' and d == 0:
-            j = k - 1; dd = 0; prev_kw = None
+            j = k - 1; dd = 0; prev_kw = None; passed_block = False
             while j >= i:
                 if ts[j] in ')]}': dd += 1
-                elif ts[j] in '([{': dd -= 1
+                elif ts[j] in '([{':
+                    dd -= 1
+                    if dd == 0 and ts[j] == '{': passed_block = True
                 if dd == 0 and (ts[j] in ('if', 'match', 'else', ',') or ts[j] in CLAUSE_KW): prev_kw = ts[j]; break
                 j -= 1
-            if prev_kw in ('if', 'match') or ts[k - 1] == 'else': k = match_close(ts, k) + 1; continue
+            if (prev_kw in ('if', 'match') and not passed_block) or ts[k - 1] == 'else': k = match_close(ts, k) + 1; continue
             return k
         k += 1
 
